@@ -295,6 +295,7 @@ SUMMARY = [
  ("no-overflowerror:param=unsigned long", "nocheck", "unsigned long parameters in multi-argument wrappers are parsed with format k (no overflow check): out-of-range values wrap silently; in an overload set such an overload even takes -1 (as 2**64-1) although f(int) matches exactly (no fix proposed)"),
  ("no-overflowerror:param=unsigned int", "nocheck", "unsigned int parameters are parsed with format k and only compared with UINT_MAX afterwards: values whose low 64 bits are small (2**70, -2**70) pass (no fix proposed)"),
  ("wrong-overload:int-taken-as-float-by-earlier-overload", "order", "DESIGN §5-15: overloads are tried in the order (more parameters, higher type rank) first and a Python int is accepted for float/double parameters, so f(1, 2) runs f(int,double,int=5) although f(int,int) matches exactly (no small fix)"),
+ ("wrong-overload:arg-taken-as-bool-by-earlier-overload", "order", "same family as int-taken-as-float: overloads are tried in rank order and a bool parameter accepts anything by truth testing, so K(4294967295, 16777216.0) runs K(unsigned long long, bool) (tried first: wider first parameter) although K(unsigned int, float) matches the float exactly (no small fix)"),
  ("positive-rejected:exc=OverflowError:range-check-of-other-overload", "order", "the range check of a small integer parameter raises OverflowError unconditionally, also inside an overload set: f(str, unsigned char) tried first rejects f('', 32767) although f(str, short) accepts it (no fix proposed)"),
  ("const-argument-passed-as-copy:param=obj:cref", "constcopy", "a const instance passed for a `const K &` parameter of a coercible class (default-constructible, converting constructor) reaches the body as a temporary copy (Dtool_Coerce_K copies const objects), so the callee does not see the object's identity and a returned reference dangles (no small fix)"),
  ("const-argument-passed-as-copy:param=obj:cptr", "constcopy", "same for `const K *` parameters (no small fix)"),
